@@ -15,12 +15,22 @@
     the pinned flags rejects the four witness programs of findings D10a-d with the panic messages the
     real compiler gave.  (The fifth, D11a, was accepted but produced a thunk without a final return:
     `C11_pinned_D11a_unbuildable`.)
-  Partial: "the generated files type-check and build" beyond the structural `Buildable` is go/types'
-  judgement - observed on every generated package (K6e, templates), not proved; import styles and
-  declaration kinds (function, method, generic, literal) are exercised by templates, not modelled.
+  * `C11_output_builds` (= `compile_total` + `compile_buildable`): PROVED - for every parsed body of the
+    grammar the output exists AND is `Buildable`: every function literal the rewriter emits (the Start
+    thunk, every Bind callback, both halves of every Combine, every For body, every hoisted block) ends in a
+    statement that go/types accepts as terminating (no "missing return"), and after pass3 no break /
+    continue / fallthrough is left outside a native loop / switch.  The two defects of this class found on
+    the pinned tree (D11a: yielding switch as last statement; D16: Bind callback after a yield in a for /
+    switch init) are exactly failures of this theorem: `C11_pinned_D11a_unbuildable` shows that the
+    hypothesis `switchLastGetsNoNormal = false` is necessary.
+  Partial: "the generated files type-check and build" beyond the structural `Buildable` (types, unused
+  variables and imports, redeclarations - finding D11b) is go/types' judgement - observed on every generated
+  package (K6build, templates), not proved; import styles and declaration kinds (function, method, generic,
+  literal) are exercised by templates, not modelled.
 -/
 import GoCo.Proofs.Total
 import GoCo.Compile.Guard
+import GoCo.Proofs.Build
 set_option autoImplicit false
 
 namespace GoCo.C11
@@ -32,6 +42,18 @@ theorem C11_accepts (body : Stmts) (hg : InGrammar body = true) : ∃ t, compile
 /-- for every repaired tree, not just the current flag setting -/
 theorem C11_accepts_any (q : Quirks) (hq : QOk q) (body : Stmts) (hg : InGrammar body = true) :
     ∃ t, compile q body = .ok t := compile_total q hq body hg
+
+/-- the output exists and builds (control-flow part of go/types' judgement) -/
+theorem C11_output_builds (body : Stmts) (hg : InGrammar body = true) (hp : plainL body = true) :
+    ∃ t, compile currentQuirks body = .ok t ∧ Buildable t = true := by
+  obtain ⟨t, ht⟩ := compile_total_current body hg
+  exact ⟨t, ht, compile_buildable currentQuirks qok_current rfl body t hp ht⟩
+
+theorem C11_output_builds_any (q : Quirks) (hq : QOk q) (hsw : q.switchLastGetsNoNormal = false) (body : Stmts)
+    (hg : InGrammar body = true) (hp : plainL body = true) :
+    ∃ t, compile q body = .ok t ∧ Buildable t = true := by
+  obtain ⟨t, ht⟩ := compile_total q hq body hg
+  exact ⟨t, ht, compile_buildable q hq hsw body t hp ht⟩
 
 /-! ### non-vacuity: a body using every construct of the grammar is inside the guard -/
 
@@ -48,7 +70,7 @@ def demo : Stmts :=
   (.cons (.for_ none none none (.cons (.simple (.act 11)) (.cons .brk .nil)))
   (.cons .ret .nil)))
 
-example : InGrammar demo = true := by decide
+example : InGrammar demo = true ∧ plainL demo = true := by decide
 example : (compile currentQuirks demo).toBool = true := by decide
 
 /-! ### the pinned tree violated the property (findings D10a-d, D11a; repaired by fix commits) -/
